@@ -26,7 +26,6 @@ package rules_test
 import (
 	"fmt"
 	"math"
-	"os"
 	"sort"
 	"strings"
 	"testing"
@@ -49,20 +48,11 @@ const (
 	c37IPSetLimit    = 31
 )
 
-// c37SigLongPanic: hash.GetLengthLimitedID panics (slice bounds out of range) when it has to
-// shorten and maxLength-1-len(prefix) exceeds 43 (the length of a base64 SHA-256); reached by
-// PolicyChainName / ProfileChainName in nftables mode (limit 256) for identities longer than the
-// limit.  While the finding is listed, exactly those renderings are skipped and counted.
-const c37SigLongPanic = "c37-shorten-needs-more-than-43-digest-chars-panics"
-
-func c37Known() bool {
-	return ev.Known(c37SigLongPanic) || os.Getenv("VERIF_C37_ASSUME_KNOWN") != ""
-}
-
-// TestVerifC37KnownNftLongPolicyNamePanic is the deterministic confirmation of the finding (not
-// matched by the unit's run regex): it FAILS while the defect is present.  A Kubernetes
-// NetworkPolicy may have a 253 character name; in nftables mode Felix cannot name its chain.
-func TestVerifC37KnownNftLongPolicyNamePanic(t *testing.T) {
+// TestVerifC37RegressNftLongPolicyName: regression test for the (fixed) finding
+// c37-shorten-needs-more-than-43-digest-chars-panics.  A Kubernetes NetworkPolicy may have a 253
+// character name; in nftables mode (limit 256) naming its chain used to panic inside
+// hash.GetLengthLimitedID.
+func TestVerifC37RegressNftLongPolicyName(t *testing.T) {
 	ev.Quiet()
 	pid := types.PolicyID{Kind: model.KindKubernetesNetworkPolicy, Namespace: "default", Name: strings.Repeat("a", 253)}
 	defer func() {
@@ -71,8 +61,13 @@ func TestVerifC37KnownNftLongPolicyNamePanic(t *testing.T) {
 		}
 	}()
 	name := rules.PolicyChainName(rules.PolicyInboundPfx, &pid, true)
-	if len(name) > c37NftLimit {
-		t.Fatalf("name %q longer than %d", name, c37NftLimit)
+	if len(name) > c37NftLimit || name == "" {
+		t.Fatalf("name %q does not fit %d", name, c37NftLimit)
+	}
+	pid2 := pid
+	pid2.Name = strings.Repeat("a", 252) + "b"
+	if other := rules.PolicyChainName(rules.PolicyInboundPfx, &pid2, true); other == name {
+		t.Fatalf("two policies that differ in the last character of a 253 character name share the chain name %q", name)
 	}
 }
 
@@ -327,10 +322,6 @@ func TestVerifC37Names(t *testing.T) {
 					parts := strings.Split(id.Text, "|")
 					pid := types.PolicyID{Kind: parts[0], Namespace: parts[1], Name: parts[2]}
 					for _, pfx := range []rules.PolicyChainNamePrefix{rules.PolicyInboundPfx, rules.PolicyOutboundPfx} {
-						if nft && len(string(pfx)+pid.ID()) > limit && c37Known() {
-							rec.Excluded(c37SigLongPanic)
-							continue
-						}
 						n1 := rules.PolicyChainName(pfx, &pid, nft)
 						cp := pid
 						if n2 := rules.PolicyChainName(pfx, &cp, nft); n2 != n1 {
@@ -344,10 +335,6 @@ func TestVerifC37Names(t *testing.T) {
 				case "profile":
 					prid := types.ProfileID{Name: id.Text}
 					for _, pfx := range []rules.ProfileChainNamePrefix{rules.ProfileInboundPfx, rules.ProfileOutboundPfx} {
-						if nft && len(string(pfx)+id.Text) > limit && c37Known() {
-							rec.Excluded(c37SigLongPanic)
-							continue
-						}
 						n1 := rules.ProfileChainName(pfx, &prid, nft)
 						cp := prid
 						if n2 := rules.ProfileChainName(pfx, &cp, nft); n2 != n1 {
